@@ -1,15 +1,21 @@
 import Proofs.Lemmas.ForkChoiceUnknown
 import Proofs.Lemmas.ForkChoiceSim
+import Proofs.Lemmas.ForkChoiceTotal
 import Zrnt.ForkChoice.Spec
 import Zrnt.ForkChoice.Old
 /-!
 # C11 — graph queries agree with the inserted tree
 
 Statements about the code-shaped model `Zrnt.ForkChoice` (tie H: modes `fc09`/`fc10`/`fc11`). `WF` is the
-structure invariant (proved for every history while nothing is pruned: `C09.inv_structure`), `Chain` the
-block/empty-slot chain structure of the inserted tree (`Proofs/Lemmas/ForkChoiceChain.lean`: preserved by
-`NewProtoArray`, `ProcessSlot` on a known root at or after its first slot, `ProcessBlock`, and by everything that
-only touches weights and links).
+structure invariant, `Chain` the block/empty-slot chain structure of the inserted tree
+(`Proofs/Lemmas/ForkChoiceChain.lean`); both hold after every step of every admissible history, pruning included
+(`C09.inv_weights`: `MInv2` contains them; `chain_onPrune`, `onPrune_wf_of_chain` are the prune steps).
+
+The statements about single queries (`inSubtree_eq_descendant`, `closestToSlot_eq_linear`, `unknown_reported`) are
+about any array satisfying the invariants, so they hold before and after pruning; `queries_refine` /
+`retained_queries_unchanged` say the same for whole histories against the independent specification, whose tree
+after a finalization is the inserted tree restricted to the finalized subtree. Before the rewrite of `OnPrune`
+(commit 38d1471) queries after a prune could loop forever: `Old.queries_after_prune_false`.
 -/
 namespace Zrnt.Proofs.C11
 open Zrnt.ForkChoice
@@ -63,13 +69,18 @@ theorem unknown_reported (pr : PA) (h : WF pr) (hc : Chain pr) (r : Root) (hr : 
 
 example : aGet chainEx.blockSlots 9 = none := by decide
 
-/-- every query of every history returns (no panic, no endless loop) while nothing is pruned: the harness machine
-is never `dead` and the array stays well formed -/
+/-- every query of every history that leaves the finalized checkpoint alone — malformed insertions included —
+returns (no panic, no endless loop): the harness machine is never `dead` and the array stays well formed -/
 theorem queries_total_quiet (ops : List Op) (hq : Quiet .none ops) : MInv (run .none ops).1 :=
   inv_structure_quiet ops .none trivial hq
 
-/-- **The navigation queries refine the specification (admissible histories).** For every history inside the
-domain: every `GetSlot(root)` answer is the first (lowest) slot at which the root was inserted, or "unknown"; every
+/-- **queries_total**: no call of an admissible history — finalizations and prunes included — is answered `panic`,
+`blocked` (endless loop or mutex) or `dead` -/
+theorem queries_total (ops : List Op) (ha : Admissible .none ops) : ∀ x ∈ (run .none ops).2, x.isFatal = false :=
+  run_total ops .none trivial ha
+
+/-- **The navigation queries refine the specification, before and after pruning.** For every history inside the
+domain (`Admissible`; `UpdateJustified` is unrestricted, so the array may be pruned any number of times): every `GetSlot(root)` answer is the first (lowest) slot at which the root was inserted, or "unknown"; every
 `InSubtree(anchor, root)` answer is block-tree descent in the inserted tree, or "unknown" when one of the roots was
 never inserted; every `ClosestToSlot(root, slot)` answer is the node itself or the greatest earlier slot with a node
 (linear scan), an error for unknown roots and slots before the first one; every `CanonicalChain(anchor, slot)`
@@ -80,7 +91,7 @@ returns the block nodes in the anchor's subtree that match, split into canonical
 and non-canonical (`search_eq_filter`; the clause `IsSearch op → y = any ∨ x = y` of `AnswersAgree`: searches without
 options and from non-first anchors are unconstrained by the specification) — exactly the answers of the direct
 walks in `Spec.lean` (`Refined` lists the operations covered). -/
-theorem getSlot_inSubtree_refine_partial (ops : List Op) (ha : Admissible .none ops) :
+theorem queries_refine (ops : List Op) (ha : Admissible .none ops) :
     AnswersAgree ops (run .none ops).2 (Spec.run none ops).2 :=
   (refines_run ops .none none trivial trivial ha).1
 
@@ -96,9 +107,30 @@ def histQ : List Op := [
 example : Admissible .none histQ := admissibleB_sound histQ .none (by decide +kernel)
 example : (run .none histQ).2 = (Spec.run none histQ).2 := by decide +kernel
 
-/- FULL STATEMENT (false of the current code): "before and after pruning" every query answers as the direct walk
-   of the inserted tree, `∀ ops, (run .none ops).2 = (Spec.run none ops).2` up to `any`. After a prune interrupted
-   by the sink, `Search` (through `inSubtree`'s unoffset `pr.nodes[i]`) never returns: -/
+/-- **retained_queries_unchanged**: a history that finalizes (and prunes) in the middle. Every query after the prune
+answers as the specification does on the tree restricted to the finalized subtree: retained nodes keep their
+ancestry, closest nodes and canonical chain; dropped roots are reported unknown; the first slot of the finalized
+root becomes the checkpoint slot (its earlier nodes are gone: `GetSlot(02)` is 1 before and 4 after). -/
+def histP : List Op := [
+  .init 4 (rt 1) 0 0 ⟨0, rt 1⟩ ⟨0, rt 1⟩ .recording [32, 32],
+  .block (rt 1) (rt 2) 1 0 0, .block (rt 1) (rt 3) 3 0 0, .block (rt 2) (rt 4) 5 1 1, .block (rt 4) (rt 5) 6 1 1,
+  .att 0 (rt 5) 6, .inSub (rt 2) (rt 5), .getSlot (rt 3), .chain (rt 1) 0,
+  .justify (rt 4) ⟨1, rt 2⟩ ⟨1, rt 2⟩ (some [32, 32]),
+  .inSub (rt 2) (rt 5), .inSub (rt 1) (rt 5), .inSub (rt 2) (rt 3), .getSlot (rt 3), .getSlot (rt 2), .getSlot (rt 1),
+  .chain (rt 2) 4, .chain (rt 1) 0, .closest (rt 2) 7, .closest (rt 2) 3, .closest (rt 3) 3,
+  .canonAt (rt 2) 5 true, .canonAt (rt 2) 4 false, .search ⟨4, rt 2⟩ (some (rt 2)) none, .head]
+
+example : Admissible .none histP := admissibleB_sound histP .none (by decide +kernel)
+
+theorem retained_queries_unchanged (ops : List Op) (ha : Admissible .none ops) :
+    AnswersAgree ops (run .none ops).2 (Spec.run none ops).2 ∧ MRef (run .none ops).1 (Spec.run none ops).1 :=
+  refines_run ops .none none trivial trivial ha
+
+example : (run .none histP).2 = (Spec.run none histP).2 := by decide +kernel
+
+/-! Before the rewrite of `OnPrune` (commit 38d1471): after a prune interrupted by the sink, `Search` (through
+`inSubtree`'s unoffset `pr.nodes[i]`) never returned. `witSearchSpins` is inside the domain, so with the new code
+`queries_total` and `queries_refine` apply to it. -/
 
 def witSearchSpins : List Op := [
   .init 2 (rt 2) 0 (rt 0xfe) ⟨0, rt 2⟩ ⟨0, rt 2⟩ (.failAt 1) [33, 0],
@@ -107,7 +139,9 @@ def witSearchSpins : List Op := [
   .justify (aa 2) ⟨1, aa 1⟩ ⟨1, aa 1⟩ (some [33, 32]),
   .search ⟨2, aa 1⟩ (some (rt 0x80)) none]
 
-/-- replayed on Go (`corpus/fc11.ops`): `blocked` (a real endless loop) -/
+example : Admissible .none witSearchSpins := admissibleB_sound witSearchSpins .none (by decide +kernel)
+
+/-- the old code, replayed on Go before the fix (`corpus/fc11.ops`): `blocked` (a real endless loop) -/
 theorem Old.queries_after_prune_false : (Zrnt.ForkChoice.Old.run .none witSearchSpins).2.getLast? = some Ans.blocked := by
   decide +kernel
 
